@@ -26,6 +26,35 @@ CHECKS["C03"] = dict(level="model_checking", engine="E1", ref="§5 C03",
    text="For every non-empty state p of the representation space and every ordered pair (d1,d2) of 57 derivations (with/removal at and beyond both ends, ++, |, >>, =>, offsets, joins adding 1-2 columns, //seq helpers, ...rest patterns): c1=d1(p), c2=d2(p), c3=d2(c1); the dumps (slices, offsets, capacity flags, rows, headings) of p, c1 and the four most recent results must be unchanged after every step, and `let`-bound names must denote the same value before and after sibling derivations. Any change is a violation; no expected values are needed.",
    note="History depth is 2 (parent, child, grandchild/sibling) and only the four most recent siblings are re-checked; storage not visible in the dump (frozen's internal nodes) is trusted.")
 
+CHECKS["C05"] = dict(level="exploration", engine="E1", ref="§5 C05",
+   technique="bounded-exhaustive enumeration of calls, ?: fallbacks, >> / >>> transformers, ++ and offsets over every state of the reachable-representation space (every representation of every small keyed collection), compared with a reference model on the denoted set of (@,x) pairs",
+   text="Operands are all states of the representation space (every construction path of every set of <=2 members over the member alphabet with forced key collisions, offsets, holes, non-sugar keyed relations, plus one generation of operator results). For every state: x(k) and x(k)?:d for every key present and 10 fixed arguments (absent, non-integer, wrong kind), 3 >> and 2 >>> transformers, n\\x for n in -2..2 and 0.5, and a ++ b for every ordered pair of states; results are compared with the model (unique value for the key, error for none/several, fallback exactly for none; keys unchanged by >>; ++ shifts the right operand by count(left); offsets shift every key).",
+   note="States that are not sets of (@,x) pairs are only checked for crashes. Transformer results that are not representable as char/byte may be an error or a generic tuple. Failures inside the known-broken regions (superimposed items, multi-valued keys, byte gaps) are grouped per region.")
+CHECKS["C13"] = dict(level="exploration", engine="E1", ref="§5 C13",
+   technique="bounded-exhaustive enumeration of a finite document grammar, all small CSV matrices/texts, all small bit sets/integers and the U2 value universe on the real codecs, each case decided by re-parsing with Go's reference parsers (encoding/json, yaml.v3, encoding/csv) and comparing denotations",
+   text="Every JSON/YAML document of a stated finite grammar (scalars incl. all strings of length <=2 over 12 runes, arrays/objects of <=2 (quick) / <=3 (thorough) children to depth 3 with empty containers, empty and duplicate keys, plus JSON-only and YAML-only spellings) is decoded, re-encoded, re-parsed by the reference parser and re-decoded in strict and lax mode; every state of the U2 representation space is given to the strict encoders (reject, or decode(encode v) = v up to strict tags) and to rel.MarshalToJSON/UnmarshalFromJSON; every r x c string matrix (r,c<=2 / <=3) and every CSV text of length <=5 / <=7 over 6 characters is round-tripped and compared with encoding/csv; //bits.mask and //bits.set are compared with integer arithmetic on every subset of {0..12} and of ten positions up to 52 and every integer up to 4096 / 2^17 plus the neighbours of 2^31..2^53. Exhaustive within these bounds; nothing is sampled.",
+   note="The wire format is observed at rel.MarshalToJSON/UnmarshalFromJSON, not through a running gRPC server. Reference parsers are Go's own libraries (yaml.v3 and encoding/csv are also what the implementation uses). Integers beyond 2^53 are compared as float64. 51 known-finding signatures (14 root causes) are recorded; further differences of an already listed kind (lax-mode empty-kind collapse, plain sets on the wire or in the strict encoders) are not distinguished. Encoder formatting options, multi-document YAML, XML/xlsx/proto are out of scope.")
+CHECKS["C15"] = dict(level="exploration", engine="E1", ref="§5 C15",
+   technique="bounded-exhaustive enumeration of source-tree layouts (sentinel sets x main position x import graphs x import spellings x cwd/main-path spellings) over an in-memory file system behind a recording wrapper; every layout is evaluated from source, bundled and run as a bundle on the real implementation and compared with a reference model of import resolution",
+   text="Every layout of six families (go.mod content variants; one import over every relative/root-relative edge x 10 target kinds and spellings; chains of two and three; two imports incl. one file by two spellings and diamonds; ten exotic directory names) over the directories {/, a, 'a b', a/b} (thorough + a/'a b') with go.mod at every subset of {/, a, a/b} (thorough {/, a, 'a b', a/b}) and main.arrai in every directory is evaluated from source and bundled under 4 (cwd, main-path spelling) configurations with the worker really chdir-ing, and each distinct archive is run from 3 working directories. Value or failure kind must equal the reference model and the sources; archives must be identical across configurations and contain, byte for byte, every file the source run opened; while a bundle runs, the recording file system installed as source and runtime fs must see no operation, and a recording http transport no request. Exhaustive within these bounds (6076 layouts / 42k evaluations quick, 32319 / 333k thorough).",
+   note="cmd/arrai (package main) is mirrored over pkg/bundle.BundledScriptsTo, syntax.EvaluateExpr and syntax.EvaluateBundleCtx, not executed; Go-module and URL imports, Windows path handling, import cycles, syntax-error bodies, depth >2 and >4 files per import path are outside the check; accesses inside the archive are not logged, only the absence of host accesses. In the quick tier the multi-file families run under 2 of the 4 configurations.")
+CHECKS["C16"] = dict(level="exploration", engine="E1", ref="§5 C16",
+   technique="bounded-exhaustive enumeration of import path strings x importer configurations and of all import graphs over <=3 files on the real compiler with a recording universal-decoy afero file system; deadlock decided structurally from the evaluating goroutine's stack (parked in importCache.getOrAdd's Cond.Wait), not by a timeout",
+   text="For every local import string prefix{./,/,.//,'./ ',' ./',' /'} + <=3 segments over {. .. ... .... a b '' ' ' ' ..' '.. ' ..a a..} (thorough: 4 segments over 10 of them) from scripts at depth 0-2 of three module layouts, spelled absolute, relative or bare, everything opened or stat'ed must lie under the module root (own directory without a module), plain spellings must read exactly their POSIX target, every import must yield the same value alone and paired with any representative spelling in one evaluation, every 3-file import graph acyclic from the main script must evaluate to the model value in all 8 placement/spelling variants and every cyclic one must return an error rather than block.",
+   note="Exhaustive over the stated alphabet and graph sizes only; MemMapFs stands in for the OS; cyclic graphs run in 1 (quick) / 3 (thorough) of 8 variants; pair consistency over <=14/24 representative spellings per configuration; concurrent users of one import cache are covered by C11, not here.")
+CHECKS["C18"] = dict(level="model_checking", engine="E1", ref="§5 C18",
+   technique="explicit-state reachability search over sandbox capability states: every construct of a small source grammar (all // paths of the full library, names, closures/let, calls of obtained safe functions, nested //eval.* and imports to depth 2/3) is executed through the real //eval.evaluator(cfg).eval under 66/246 configurations and decided against a tuple-lookup model of the context plus an identity walk for unsafe native functions and recording file-system/HTTP observers",
+   text="For every sandbox configuration enumerated (stdlib absent, (), each single member of the full library, safe library minus one member; scope none / value / safe function / //os.file / tuple with //eval) and every source text of the grammar up to nesting depth 2 (quick) / 3 (thorough): a // reference must resolve exactly to the member of the given library or fail, scope names resolve to what was given, closures and let do not change that, no result may contain a file-reading, network or command-execution function that was not passed in, no file may be opened and no HTTP request attempted.",
+   note="Bounded: grammar alphabet and nesting depth as stated; states identified by the resolution of all top-level // names and scope names; configuration-independent states are expanded once under a designated configuration; unsafe functions are identified by Go symbol/name (hook rel.VerifNativeFnSym) and never invoked. Four known defect families are reported on every run (//eval.value and imported text fall back to the full library; import syntax inside the sandbox reads host files / issues HTTP GETs; the safe library contains //deprecated.exec).")
+CHECKS["C19"] = dict(level="fault_enumeration", engine="E1", ref="§5 C19",
+   technique="bounded-exhaustive enumeration of output dictionaries x prior directory states through the real arrai.OutputValue on an instrumented in-memory file system, whole-file-system snapshot compared with a reference spec(prior, dict); then an I/O error injected at the i-th file-system call for every i (every pair in thorough) and a read-only run",
+   text="Every output dictionary of depth <=2 built from 6 keys (valid names, ../ escapes, '', non-string) and 104 entry values (all value kinds, config tuples with every ifExists value incl. invalid ones and every file/dir combination, invalid members at every position) is written against 6 (quick) / 8 (thorough) prior states of PATH; the complete file system inside and outside PATH is compared with a state-independent reference model (described tree combined by the ifExists rules, or error and no change when the description is invalid or a 'fail' rule refuses); file: mode for all result kinds and flag spellings. For every case the run is repeated with EIO injected at each file-system call (each pair of calls in thorough) and on a read-only file system, and must then return an error. Exhaustive within these bounds.",
+   note="File system = afero.MemMapFs behind a wrapper adding the POSIX path-resolution errors MemMapFs omits. Validity rules are taken from docs/docs/cli/eval.md; keys containing '/' and the key '.' are not in the alphabet because neither the property nor the docs define them (the repository's tests use 'bar/baz' as a nested path); dir-onto-file is treated as a conflict (only an error is demanded, or nothing when no file is described). Failures are shrunk to minimal descriptions and grouped by reason class, so a new defect that only adds cases of an already listed class is not distinguished, and fault judgement is suspended on cases whose fault-free behaviour already deviates. Deeper/wider dictionaries, permissions, symlinks, partial writes and the CLI flag parsing itself are outside.")
+CHECKS["C20"] = dict(level="exploration", engine="E1", ref="§5 C20",
+   technique="bounded-exhaustive enumeration of test result trees (24 container construction paths x 12 leaf spellings, depth <=3 quick / <=4 thorough) and of directory layouts (<=3/<=4 files x 12 path slots x 6 contents x 5 targets) on the real pkg/test runner, each run's parsed report and returned error compared with a leaf census computed by a reference model from the denotation of the evaluated value",
+   text="Every result tree of the bounded grammar is built through every construction path and given to the real runner (test.RunExpr + test.Report for the value-level family, test.RunTests on an in-memory file system for the source-level and layout families); the run must fail exactly when the model's census has a leaf that is not the literal true (or a discovered file cannot be evaluated / none is discovered), every leaf must be reported once under its path with its outcome, and the summary counts must add up to the model's leaves. Exhaustive within the stated bounds.",
+   note="The large tree space enters the runner behind the compiler (values composed from compiled forms, because parsing costs 5-20 ms per file); only ~900 (quick) / ~8,800 (thorough) trees and all layouts go through RunTests end to end. Hidden/dot targets, cwd targets, exotic dictionary keys/attribute names, report order and message texts are outside; files whose parse error wbnf renders in exponential time (empty file, unbalanced brackets) are excluded.")
+
 NOT_YET = {
 }
 
